@@ -19,25 +19,13 @@ def enabled():
     return os.environ.get(GUARD) == '1'
 
 
-def emit(name, **fields):
+def emit(name, state=None, **fields):
     """
-    Record one event (a name and a dict of plain values).
+    Record one event: a name and a dict of plain values (``fields``
+    plus, if given, the dict returned by the callable ``state``, which
+    is only called when tracing is enabled).
     """
     if enabled():
+        if state is not None:
+            fields.update(state())
         events.append((name, fields))
-
-
-def traced(iterable, name, state):
-    """
-    Iterate over ``iterable``; when tracing is enabled, record
-    ``state()`` after the loop body has processed each item.
-    """
-    if not enabled():
-        return iterable
-    return _traced(iterable, name, state)
-
-
-def _traced(iterable, name, state):
-    for index, item in enumerate(iterable):
-        yield item
-        emit(name, index=index, **state())
